@@ -147,7 +147,9 @@ Definition c11_code (c : ccase) : nat :=
                       | _ => true
                       end in
         let above := forallb (fun p => qleb (t * (1 - eps12)) (qf0 (inten p))) o in
-        if ok_present && ratios && above then 0%nat else 1%nat
+        (* every returned peak sits at the mass of an isotopologue of the whole composition *)
+        let no_junk := forallb (fun p => existsb (fun l => q_close_abs (l_mass l) (fst p) eps9) spec) imp in
+        if ok_present && ratios && above && no_junk then 0%nat else 1%nat
   end.
 
 Definition c_nontrivial (c : ccase) : bool := match cc_out c with Some o => Nat.ltb 2 (List.length o) | None => false end.
